@@ -354,6 +354,9 @@ func store(T types.Type, addr *value, v value) {
 			store(T.Elem(), &lhs[i], rhs[i])
 		}
 	default:
+		if anyFrozen {
+			checkFrozen(addr)
+		}
 		*addr = v
 	}
 }
